@@ -26,12 +26,81 @@ fn chunk_err_class(e: &chunk::Error) -> &'static str {
     }
 }
 
+type B = (u64, [u8; 32]);
+fn tok(b: &B) -> String { format!("{}:{}", b.0, hex(&b.1)) }
+fn digest(bs: &[B]) -> String {
+    let mut f: u64 = 0;
+    for b in bs { f = (f * 33 + b.0 + u32::from_be_bytes([b.1[0], b.1[1], b.1[2], b.1[3]]) as u64) % 4294967296; }
+    match (bs.first(), bs.last()) { (Some(a), Some(z)) => format!("{} {} {} {}", bs.len(), f, tok(a), tok(z)), _ => "0 0".to_string() }
+}
+fn collect(it: impl Iterator<Item = imm::FallibleBlock>) -> Result<Vec<B>, &'static str> {
+    let mut v = vec![];
+    for b in it {
+        let bytes = b.map_err(|_| "read")?;
+        let blk = pallas_traverse::MultiEraBlock::decode(&bytes).map_err(|_| "decode")?;
+        let mut h = [0u8; 32];
+        h.copy_from_slice(blk.hash().as_ref());
+        v.push((blk.slot(), h));
+    }
+    Ok(v)
+}
+fn db_err(e: &imm::Error) -> &'static str {
+    match e { imm::Error::CannotFindBlock(_) => "notfound", imm::Error::OriginMissing => "origin", imm::Error::CannotReadDir(_) => "readdir",
+        imm::Error::CannotDecodeBlock(_) => "decode", imm::Error::ChunkReadError(_) => "read" }
+}
+
 /// the work itself (child side, or in-process when already in the child)
 fn run_ops(case: &Case, out: &mut Out) {
     let mut any_err = false;
     let mut any_ok_after_corruption = false;
+    let mut xdir: Option<CaseDir> = None;
+    let mut xlabel = String::new();
     for op in &case.ops {
         match op[0].as_str() {
+            "dbx" => {
+                // dbx <label> <k> then per chunk: <P> <S> <clen> <nb> (<len> <slot:hash>)*
+                let pool = small_pool();
+                xlabel = op[1].clone();
+                let k: usize = op[2].parse().unwrap();
+                let d = CaseDir::new("immx", case.id);
+                let mut p = 3;
+                let mut total = 0;
+                for c in 0..k {
+                    let (pb, sb, clen, nb) = (unhex(&op[p]).unwrap(), unhex(&op[p + 1]).unwrap(), op[p + 2].parse::<usize>().unwrap(), op[p + 3].parse::<usize>().unwrap());
+                    p += 4;
+                    let mut chunk = vec![];
+                    for _ in 0..nb {
+                        let h: [u8; 32] = unhex(op[p + 1].split_once(':').unwrap().1).unwrap().try_into().unwrap();
+                        chunk.extend(&pool.blocks[pool.by_hash[&h]].bytes);
+                        p += 2; total += 1;
+                    }
+                    chunk.truncate(clen);
+                    let name = format!("{:05}", 30 + c);
+                    std::fs::write(d.path().join(format!("{name}.primary")), &pb).unwrap();
+                    std::fs::write(d.path().join(format!("{name}.secondary")), &sb).unwrap();
+                    std::fs::write(d.path().join(format!("{name}.chunk")), &chunk).unwrap();
+                }
+                xdir = Some(d);
+                out.ok(format!("{k} {total}"));
+            }
+            "xreadall" | "xtip" | "xfrom" => {
+                let dir = xdir.as_ref().unwrap().path().to_owned();
+                let o2 = op.clone();
+                let r = guard_mut(move || match o2[0].as_str() {
+                    "xreadall" => match imm::read_blocks(&dir) { Err(e) => format!("err {}", db_err(&e)), Ok(it) => match collect(it) { Ok(v) => format!("ok {}", digest(&v)), Err(c) => format!("err {c}") } },
+                    "xtip" => match imm::get_tip(&dir) { Err(e) => format!("err {}", db_err(&e)), Ok(None) => "ok none".into(),
+                        Ok(Some(Point::Specific(s, h))) => format!("ok some {}:{}", s, hex(&h)), Ok(Some(Point::Origin)) => "ok origin".into() },
+                    _ => {
+                        let (slot, hash) = (o2[1].parse::<u64>().unwrap(), unhex(&o2[2]).unwrap());
+                        match imm::read_blocks_from_point(&dir, Point::Specific(slot, hash)) { Err(e) => format!("err {}", db_err(&e)),
+                            Ok(it) => match collect(it) { Ok(v) => format!("ok {}", digest(&v)), Err(c) => format!("err {c}") } }
+                    }
+                });
+                match r {
+                    None => { out.viol(format!("panic reading label={xlabel} level=db"), op.join(" ")); out.panic(); }
+                    Some(line) => { if line.starts_with("err") { any_err = true; } else if xlabel != "db-intact" { any_ok_after_corruption = true; } out.reply(line); }
+                }
+            }
             "chunk" => {
                 let label = op[1].clone();
                 let (p, s, c) = (unhex(&op[2]).unwrap(), unhex(&op[3]).unwrap(), unhex(&op[4]).unwrap());
@@ -228,7 +297,7 @@ pub fn generate(g: &mut Gen) {
     // 2. inconsistent offsets and random damage
     for case in 0..g.cases {
         let mut ops = vec![];
-        if case % 5 == 4 {
+        if case % 3 == 2 {
             // database level: one damaged file among the chunks of a small database of real blocks
             let total = g.rng.range(3, 9) as usize;
             let start = g.rng.below((pool.blocks.len() - total) as u64) as usize;
@@ -238,6 +307,41 @@ pub fn generate(g: &mut Gen) {
             let hashes: Vec<String> = (0..total).map(|i| hex(&pool.blocks[start + i].hash)).collect();
             let which = g.rng.below(k as u64 - 1) as usize;        // an immutable chunk
             let n = sizes[which];
+            // the same kind of damage with the files spelled out, tied to the composed Lean model
+            {
+                let mut ps: Vec<(Vec<u8>, Vec<u8>, usize, Vec<usize>)> = vec![];   // primary, secondary, chunk length, block indexes
+                let mut pos = 0;
+                for n in &sizes {
+                    let idx: Vec<usize> = (start + pos..start + pos + n).collect();
+                    let (mut sec, mut off) = (vec![], 0u64);
+                    for i in &idx { let b = &pool.blocks[*i]; sec.extend(secondary_entry(off, &b.hash, b.slot)); off += b.bytes.len() as u64; }
+                    ps.push((primary_index(*n, &[]), sec, off as usize, idx));
+                    pos += n;
+                }
+                let label = match g.rng.below(10) {
+                    0 => "db-intact",
+                    8 | 9 => { ps[0].0.truncate(0); "db-empty-primary" }      // the oldest chunk does not open at all
+                    1 => { let l = ps[which].0.len() as u64; let n = if g.rng.chance(1, 3) { 0 } else { g.rng.below(l + 1) as usize }; ps[which].0.truncate(n); "db-trunc-primary" }
+                    2 => { let l = ps[which].1.len() as u64; ps[which].1.truncate(g.rng.below(l + 1) as usize); "db-trunc-secondary" }
+                    3 => { let l = ps[which].2 as u64; ps[which].2 = g.rng.below(l + 1) as usize; "db-trunc-chunk" }
+                    4 => { let at = 56 * g.rng.below(n as u64) as usize; let v = if g.rng.chance(1, 2) { edgy(g, 8) } else { g.rng.below(ps[which].2 as u64 + 3) }; ps[which].1[at..at + 8].copy_from_slice(&v.to_be_bytes()); "db-sec-offset" }
+                    5 => { let at = 1 + 4 * g.rng.below(n as u64 + 1) as usize; let v = if g.rng.chance(1, 2) { edgy(g, 4) as u32 } else { g.rng.below(56 * n as u64 + 60) as u32 }; ps[which].0[at..at + 4].copy_from_slice(&v.to_be_bytes()); "db-prim-offset" }
+                    6 => { let at = g.rng.below(ps[which].1.len() as u64) as usize; ps[which].1[at] = g.rng.next() as u8; "db-sec-garbage" }
+                    _ => { let at = g.rng.below(ps[which].0.len() as u64) as usize; ps[which].0[at] = g.rng.next() as u8; "db-prim-garbage" }
+                };
+                let mut line = format!("dbx {} {}", label, k);
+                for (p, s, clen, idx) in &ps {
+                    line += &format!(" {} {} {} {}", hex(p), hex(s), clen, idx.len());
+                    for i in idx { let b = &pool.blocks[*i]; line += &format!(" {} {}:{}", b.bytes.len(), b.slot, hex(&b.hash)); }
+                }
+                ops.push(line);
+                ops.push("xreadall".into()); ops.push("xtip".into());
+                let immutable: usize = sizes[..k - 1].iter().sum();
+                for _ in 0..4 {
+                    let b = &pool.blocks[start + g.rng.below(immutable as u64) as usize];
+                    ops.push(match g.rng.below(4) { 0 => format!("xfrom {} -", b.slot + 1), 1 => format!("xfrom {} -", b.slot), _ => format!("xfrom {} {}", b.slot, hex(&b.hash)) });
+                }
+            }
             for _ in 0..3 {
                 let (ext, label, mutation) = match g.rng.below(6) {
                     0 => ("primary", "db-trunc-primary", format!("trunc {}", g.rng.below(5 + 4 * n as u64))),
